@@ -386,6 +386,17 @@ Definition c_in_covered (s : ishape) (k : ckind) : bool :=
   | _, _ => false
   end.
 
+(* deposit sweeps (pkg/tbtcpg estimateDepositsSweepFee): the wallet sweeps P2WSH AND legacy P2SH
+   deposits, the caller announces every deposit as P2WSH.  For these cases the real transaction
+   is the sweep of the deposits actually swept, so a deposit input is in the domain whatever
+   its witness flag is (deposit scripts are longer than one byte) *)
+Definition c_in_covered_sweep (s : ishape) (k : ckind) : bool :=
+  match s, k with
+  | SPkh w, CPkh w' => Bool.eqb w w'
+  | SSh _ l, CSh _ rl _ => (2 <=? rl) && (rl <=? l)
+  | _, _ => false
+  end.
+
 (* one estimator call together with the real inputs / outputs generated for it *)
 Record item := { it_op : op; it_ins : list cin; it_outs : list (N * N) (* multiplicity, script length *) }.
 Record real_obs := { r_base : N; r_total : N; r_vsize : N }.
@@ -415,13 +426,13 @@ Definition op_count (o : op) : N :=
 (* every real input (output) of the item is covered by the op's shape and there are no more of
    them than the op announces.  Signature and key lengths are outputs of the implementation,
    not part of the shape: they are NOT constrained here *)
-Definition item_covered (it : item) : bool :=
+Definition item_covered_with (cov : ishape -> ckind -> bool) (it : item) : bool :=
   let o := it_op it in
   (sumN_map ci_mult (it_ins it) + sumN_map fst (it_outs it) <=? op_count o)
   && match it_ins it with
      | [] => true
      | _ => match op_in_shape o with
-            | Some s => forallb (fun c => c_in_covered s (ci_kind c)) (it_ins it)
+            | Some s => forallb (fun c => cov s (ci_kind c)) (it_ins it)
             | None => false
             end
      end
@@ -432,7 +443,10 @@ Definition item_covered (it : item) : bool :=
             | None => false
             end
      end.
-Definition covered (c : case) : bool := forallb item_covered (c_items c).
+Definition item_covered := item_covered_with c_in_covered.
+Definition is_sweep (c : option caller) : bool := match c with Some (CallSweep _) => true | _ => false end.
+Definition covered (c : case) : bool :=
+  forallb (item_covered_with (if is_sweep (c_caller c) then c_in_covered_sweep else c_in_covered)) (c_items c).
 
 (* the model's size of the real transaction, from the observed lengths *)
 Definition real_sizes (items : list item) : sizes :=
@@ -448,7 +462,8 @@ Definition spec_ok (c : case) : bool :=
   | VOk e, Some r =>
       if covered c
       then (r_vsize r <=? e) && (vsize_of_weight (r_base r * 3 + r_total r) <=? e)
-      else true                  (* the property speaks about covered shapes only *)
+      else true                  (* the property speaks about covered shapes (for a tbtcpg
+                                    deposit sweep: about the sweeps the wallet makes) only *)
   | _, _ => true                 (* an error is not an estimate; no transaction, nothing to compare *)
   end.
 
